@@ -1397,6 +1397,7 @@ func (sc *scenario) run() (out *outcome) {
 	for len(accCh) > 0 {
 		<-accCh
 	}
+	time.Sleep(time.Second) // datagrams of the first dial that are still in flight (possibly mutated) arrive before the re-dial exists
 	if sc.spec.vn != "fail" {
 		r2, hang2, _, _ := attempt(out.bound, false)
 		out.redial = errClass(r2.err)
